@@ -178,6 +178,7 @@ def run(prog):
         if f is not None:
             rep['threaded'] += thread_bool_results(f)
             fold_const_switches(f)
+            rep['folded'] = rep.get('folded', 0) + fold_switches(prog, f)
             f._cache.clear()
     return rep
 
@@ -203,32 +204,68 @@ def _subst_local(x, a, b):
     return x
 
 
+PURE_ON_PATH = ('core::ops::try_trait::Try::branch',)
+
+
+def _single_succ(f, bi):
+    t = f.blocks[bi]['term']
+    if t['k'] == 'goto':
+        return t['to']
+    if t['k'] == 'drop' and t.get('ret') is not None:
+        return t['ret']
+    if t['k'] == 'call' and t.get('ret') is not None:
+        return t['ret']
+    return None
+
+
+def _set_single_succ(t, to):
+    if t['k'] == 'goto':
+        t['to'] = to
+    else:
+        t['ret'] = to
+
+
+def _pure_call(t):
+    c = const_of(t['func'])
+    return bool(c) and 'fn' in c and norm(c['fn']) in PURE_ON_PATH
+
+
 def _path_to_switch(f, start):
-    """blocks from `start` along goto / drop edges up to and including the first switch (None if
-    anything else is met, or after 12 blocks)"""
+    """blocks from `start` along goto / drop / `?`-branch edges up to and including the first switch
+    (None if anything else is met, or after 12 blocks)"""
     out, cur = [], start
     while len(out) <= 12:
         out.append(cur)
         t = f.blocks[cur]['term']
         if t['k'] == 'switch':
             return out
-        if t['k'] == 'goto':
-            cur = t['to']
-        elif t['k'] == 'drop' and t.get('ret') is not None:
-            cur = t['ret']
+        if t['k'] in ('goto', 'drop') or (t['k'] == 'call' and _pure_call(t)):
+            cur = _single_succ(f, cur)
+            if cur is None:
+                return None
         else:
             return None
     return None
 
 
+def _block_defs(b):
+    out = {st['dst']['l'] for st in b['stmts'] if not st['dst']['p']}
+    t = b['term']
+    if t['k'] == 'call' and t.get('dst') and not t['dst']['p']:
+        out.add(t['dst']['l'])
+    return out
+
+
 def thread_bool_results(f):
-    """Tail duplication for a bool local R that an inlined helper assigns on several return paths
-    which merge (possibly in stages, through drop / goto blocks) before the caller tests it: the
-    blocks between each assignment and the test are cloned per assignment, with R and the locals
-    defined on the way renamed to fresh single-assignment locals. Path conditions then see the
-    helper's own condition (or a constant, folded by fold_const_switches) instead of a merged
-    variable. Applied only if the cloned blocks contain no call and the renamed locals are not used
-    anywhere else. Returns the number of variables specialised."""
+    """Tail duplication for a local R that an inlined helper assigns on several return paths which
+    merge (possibly in stages, through drop / goto blocks) before the caller tests it — directly
+    (`if helper(..)`) or through `?`: the blocks between each assignment and the test are cloned per
+    assignment, with R and the locals defined on the way renamed to fresh single-assignment locals.
+    Blocks after the test that still read one of those locals (the payload of `?`) are cloned along
+    with it as long as they form a straight line. Path conditions then see the helper's own
+    condition, or a constant / known variant that fold_switches removes, instead of a merged
+    variable. Applied only if no renamed local is used anywhere else. Returns the number of
+    variables specialised."""
     n = 0
     done_locals = set()
     for _ in range(8):
@@ -239,20 +276,17 @@ def thread_bool_results(f):
                     whole.setdefault(st['dst']['l'], []).append((i, si))
         progress = False
         for R, defs_ in whole.items():
-            if R in done_locals or len(defs_) < 2 or R <= f.argc:
+            if R in done_locals or len(defs_) < 2 or R <= f.argc or not f.locals[R].get('inlined_from'):
                 continue
-            if f.locals[R]['ty']['s'] != 'bool' or not f.locals[R].get('inlined_from'):
-                continue
+            done_locals.add(R)
             dbs = [d for d, _ in defs_]
             if len(set(dbs)) != len(dbs) or any(f.blocks[d].get('cleanup') for d in dbs):
                 continue
             paths, ok = {}, True
             for d, si in defs_:
                 b = f.blocks[d]
-                t = b['term']
-                nxt = t.get('to') if t['k'] == 'goto' else (t.get('ret') if t['k'] == 'drop' else None)
-                # R must not be read or rewritten after its definition inside the defining block
-                if nxt is None or any(_uses_local(st, R) for st in b['stmts'][si + 1:]):
+                nxt = _single_succ(f, d) if b['term']['k'] in ('goto', 'drop') else None
+                if nxt is None or any(_uses_local(st, R) for st in b['stmts'][si + 1:]) or _uses_local(b['term'], R):
                     ok = False
                     break
                 pth = _path_to_switch(f, nxt)
@@ -262,44 +296,155 @@ def thread_bool_results(f):
                 paths[d] = pth
             if not ok or len({p_[-1] for p_ in paths.values()}) != 1:
                 continue
+            S = next(iter(paths.values()))[-1]
             region = sorted({x for p_ in paths.values() for x in p_})
-            inner = sorted({st['dst']['l'] for c in region for st in f.blocks[c]['stmts'] if not st['dst']['p']})
-            elsewhere = [b for i, b in enumerate(f.blocks) if i not in region and i not in dbs]
-            if any(_uses_local(b, l) for b in elsewhere for l in [R] + inner):
-                continue
             if not any(_uses_local(f.blocks[c], R) for c in region):
                 continue
+            inner = sorted(set().union(*[_block_defs(f.blocks[c]) for c in region]) - {R})
+            ren_src = [R] + inner
+            # blocks outside that read a renamed local must form straight lines starting at S's successors
+            def reads(b):
+                # a scope-end `drop(local)` is not a read that matters to the analysis
+                t = b['term']
+                body = [b['stmts']] + ([t] if t['k'] != 'drop' else [])
+                return any(_uses_local(body, l) for l in ren_src)
+            outside = {i for i, b in enumerate(f.blocks) if i not in region and i not in dbs and not b.get('cleanup') and reads(b)}
+            tails = {}
+            st_ = f.blocks[S]['term']
+            marked = set()
+            for X in [x for _, x in st_['targets']] + [st_['otherwise']]:
+                chain, cur, last = [], X, 0
+                while cur is not None and cur not in chain and cur not in region and len(chain) < 8:
+                    chain.append(cur)
+                    if cur in outside:
+                        last = len(chain)
+                    cur = _single_succ(f, cur)
+                chain = chain[:last]
+                tails[X] = chain
+                marked.update(chain)
+            if outside - marked:
+                continue
+            # the renamed locals must not be re-defined in the tails
+            if any(_block_defs(f.blocks[c]) & set(ren_src) for c in marked):
+                continue
+            # temporaries defined in the tails are private to each copy too (not the return place)
+            tail_defs = sorted(set().union(*[_block_defs(f.blocks[c]) for c in marked]) - {0} - set(ren_src)) if marked else []
+            others = [b for i, b in enumerate(f.blocks) if i not in region and i not in marked and not b.get('cleanup')]
+            if any(_uses_local([b['stmts']] + ([b['term']] if b['term']['k'] != 'drop' else []), l) for b in others for l in tail_defs):
+                continue
+            ren_src = ren_src + tail_defs
             for d, si in defs_:
                 ren = {}
-                for l in [R] + inner:
+                for l in ren_src:
                     f.locals.append(copy.deepcopy(f.locals[l]))
                     ren[l] = len(f.locals) - 1
-                base = len(f.blocks)
-                pth = paths[d]
-                for k, c in enumerate(pth):
+
+                def clone(c):
                     nb = copy.deepcopy(f.blocks[c])
                     for a, b_ in ren.items():
                         nb = _subst_local(nb, a, b_)
-                    t = nb['term']
-                    if k + 1 < len(pth):
-                        if t['k'] == 'goto':
-                            t['to'] = base + k + 1
-                        else:
-                            t['ret'] = base + k + 1
                     nb['threaded_copy_of'] = c
                     f.blocks.append(nb)
+                    return len(f.blocks) - 1
+                pth = paths[d]
+                ids = [clone(c) for c in pth]
+                for k in range(len(ids) - 1):
+                    _set_single_succ(f.blocks[ids[k]]['term'], ids[k + 1])
+                # tails: one private copy per successor of the cloned switch
+                sw = f.blocks[ids[-1]]['term']
+
+                def tail_for(X):
+                    chain = tails.get(X) or []
+                    if not chain:
+                        return X
+                    cids = [clone(c) for c in chain]
+                    for k in range(len(cids) - 1):
+                        _set_single_succ(f.blocks[cids[k]]['term'], cids[k + 1])
+                    return cids[0]
+                sw['targets'] = [[v, tail_for(x)] for v, x in sw['targets']]
+                sw['otherwise'] = tail_for(sw['otherwise'])
                 db = f.blocks[d]
                 db['stmts'][si] = _subst_local(db['stmts'][si], R, ren[R])
-                if db['term']['k'] == 'goto':
-                    db['term']['to'] = base
-                else:
-                    db['term']['ret'] = base
-            done_locals.add(R)
+                _set_single_succ(db['term'], ids[0])
             n += 1
             progress = True
             break
         if not progress:
             break
+    if n:
+        _blank_unreachable(f)
+    return n
+
+
+def _blank_unreachable(f):
+    """originals of cloned blocks are no longer reachable: empty them, so that they neither define
+    locals nor show up as rows of a decision table"""
+    seen, st = set(), [0]
+    while st:
+        x = st.pop()
+        if x in seen:
+            continue
+        seen.add(x)
+        t = f.blocks[x]['term']
+        for k in BLOCK_KEYS:
+            if isinstance(t.get(k), int) and not isinstance(t.get(k), bool):
+                st.append(t[k])
+        for _, b in t.get('targets', []):
+            st.append(b)
+    for i, b in enumerate(f.blocks):
+        if i not in seen:
+            b['stmts'] = []
+            b['term'] = {'k': 'unreachable', 'line': b['term'].get('line'), 'dead_after_threading': True}
+
+
+def fold_switches(prog, f):
+    """switches whose discriminant is, after threading, a constant or a known variant become gotos
+    (decided on the expression tree, so copies, `!` and `?` on a known Ok/Err are seen through)"""
+    from .expr import switch_info
+    n = 0
+    for _ in range(4):
+        changed = False
+        f._cache.clear()
+        for bi, b in enumerate(f.blocks):
+            t = b['term']
+            if t['k'] != 'switch' or not (b.get('threaded_copy_of') is not None or b.get('inlined_from')):
+                continue
+            try:
+                e, kind, labels, adt = switch_info(prog, f, bi)
+            except Exception:
+                continue
+            tgt = None
+            if kind == 'bool':
+                v = None
+                x, neg = e, False
+                while isinstance(x, tuple) and x[0] == 'un' and x[1] == 'Not':
+                    x, neg = x[2], not neg
+                if isinstance(x, tuple) and x[0] == 'const' and x[1] in (0, 1, True, False):
+                    v = bool(x[1]) != neg
+                if v is None:
+                    continue
+                for val, bb in t['targets']:
+                    if bool(val) == v:
+                        tgt = bb
+                if tgt is None:
+                    tgt = t['otherwise']
+            elif kind == 'enum' and isinstance(e, tuple) and e[0] == 'agg' and e[1] == 'adt' and e[3]:
+                for val, bb in t['targets']:
+                    if labels.get(val) == e[3]:
+                        tgt = bb
+                if tgt is None:
+                    if e[3] in labels.values():
+                        tgt = t['otherwise']
+                    else:
+                        continue
+            else:
+                continue
+            b['term'] = {'k': 'goto', 'to': tgt, 'line': t.get('line'), 'folded_switch': True}
+            n += 1
+            changed = True
+        if not changed:
+            break
+    f._cache.clear()
     return n
 
 
